@@ -58,10 +58,12 @@ def run(ctx):
     n = ctx.n(1500, 40000)
     ctx.diff_stream("sotw", n, oracle=oracle)
     ctx.diff_stream("delta", n, oracle=oracle)
+    # the scripted reconnect order "EDS before CDS" with a changed cluster set (warming; shared with C05)
+    ctx.diff_stream("warm", ctx.n(600, 12000), oracle=oracle)
     # closed loop: real ShouldRespond/Send composed with the conformant client of Protocol.lean
     ctx.diff_stream("loop", ctx.n(800, 20000), oracle=oracle)
     # the oracle also runs on every generated case (second line, independent of the model)
-    for stream in ("sotw", "delta", "loop"):
+    for stream in ("sotw", "delta", "warm", "loop"):
         g = os.path.join(ctx.work, "%s.gen.ops" % stream)
         if os.path.exists(g):
             out = g + ".verdict"
